@@ -351,6 +351,12 @@ func (x *Interp) execStmt(fr *frame, st *Stmt) {
 		if x.cur.Idx == st.N && (st.Kind != "gen" || !x.sawFalsified) {
 			x.exec(fr, st.Body)
 		}
+	case "goexit":
+		// the goroutine that runs the test case is made to exit (runtime.Goexit): this is how FailNow, Fatalf and
+		// SkipNow of a real *testing.T end a call - the enclosing test's T, which a property or a cleanup callback can
+		// see through its closure (require.NoError(outerT, ...)). C10 only, in cases run on a goroutine of their own
+		x.ev(Event{K: "goexit", Scope: fr.sc.id, Where: fr.where})
+		runtime.Goexit()
 	case "ifinvge":
 		// true from the N-th invocation on, "ifinvmod": in every invocation whose index is D modulo N. Only for
 		// properties that are never falsified (C09: a property that needs no input, or starts to draw late, or is
